@@ -272,6 +272,20 @@ def shared_attr(director, obj, attr, name):
   return obj
 
 
+def auto_proxy(director, sc, real_objects):
+  """the attributes the translator bound by itself (sc.auto_bound) get the matching proxies on the real objects {object name: object}"""
+  for (oname, attr, mname, kind) in getattr(sc, "auto_bound", []):
+    obj = real_objects.get(oname)
+    if obj is None or not hasattr(obj, attr):
+      continue
+    if kind == "RLock":
+      setattr(obj, attr, LockProxy(director, mname))
+    elif kind == "Event":
+      setattr(obj, attr, make_event(director, mname, getattr(obj, attr).is_set()))
+    elif kind == "attr":
+      shared_attr(director, obj, attr, mname)
+
+
 def shared_class_attrs(director, module, clsname, names, initial=None):
   """make loads and stores of the class attributes `names` ({attribute: operation target}) of module.<clsname> visible operations: the
   module's name is rebound to a subclass whose metaclass has a property per attribute (type objects cannot change their metaclass; code
